@@ -4,7 +4,7 @@ import EaselModel.Buffer.Safe
 
 `history_spec` needs `ValidHist` (the API contract). Here the contract is discharged: for every operation from every
 state reached so far, the model of the code either simulates the specification step, or answers the documented
-`eslEINVAL` and leaves a state that is described exactly (`Total`). What is still asked of the caller is `SafeOp`,
+`eslEINVAL` and leaves a state that is described exactly (`Total`). What is still asked of the caller is `CallerOk`,
 four clauses about the *current window*; each of them is necessary: violating it drives the code (and the model) into a
 state with the cursor outside the window or the anchor ahead of the cursor, from which later calls read out of bounds
 (`unsafe_*` witnesses in `Props/C05.lean`; the real code dies under ASan on the same histories). -/
@@ -109,23 +109,20 @@ theorem R.unchanged {P : Nat} {a : AState} {s s' : Sess} (r : R P a s) (hb : s'.
 
 /-! ## Set -/
 
-theorem total_set (P k : Nat) (a : AState) (s : Sess) (r : R P a s) (hs : SafeOp s (.set k)) : TStep P a s (.set k) := by
+theorem total_set (P k : Nat) (a : AState) (s : Sess) (r : R P a s) (hs : CallerOk s (.set k)) : TStep P a s (.set k) := by
   apply TStep.of_sim
   have hp := r.wf.hpos
   cases hl : s.lastp with
   | none =>
     have hal : a.lastp = none := by rw [← r.lastp, hl]; rfl
-    refine set_tail r k s.b a.cur r.wf (Keep.refl _) r.cur (fun A hA => (r.aanch A hA).1) (by rw [hl]; rfl) ?_
+    refine set_tail r k s.b a.cur r.wf (Keep.refl _) r.cur (by rw [hl]; rfl) ?_
     unfold specStep; simp only [hal]
   | some i =>
     have hal : a.lastp = some (s.b.base + i) := by rw [← r.lastp, hl]; rfl
-    obtain ⟨l1, l2⟩ := r.lastp_le _ hal
     have hik : i + k ≤ s.b.n := hs i hl
-    have hanc := r.anchor_le i l2
-    refine set_tail r k { s.b with pos := i + k } (s.b.base + i + k) ?_ (setpos_keep s.b _) ?_ ?_ (by rw [hl]; rfl) ?_
-    · exact ⟨r.wf.hwin, hik, fun x hx => Nat.le_trans (hanc x hx) (Nat.le_add_right _ _), r.wf.hps, r.wf.heof, r.wf.hnofp⟩
+    refine set_tail r k { s.b with pos := i + k } (s.b.base + i + k) ?_ (setpos_keep s.b _) ?_ (by rw [hl]; rfl) ?_
+    · exact ⟨r.wf.hwin, hik, r.wf.hanch, r.wf.hps, r.wf.heof, r.wf.hnofp⟩
     · show s.b.base + (i + k) = _; omega
-    · intro A hA; have := l2 A hA; omega
     · unfold specStep; simp only [hal]
 
 /-! ## SetAnchor / SetStableAnchor -/
@@ -140,9 +137,9 @@ theorem setAnchor_outside (b : Buf) (o : Nat) (hf : b.hasfp = true) (h : o < b.b
 theorem R.forget_anchor {P : Nat} {a : AState} {s : Sess} (r : R P a s) (hf : s.b.hasfp = false) :
     R P { a with anchor := none, nanchor := 0 } s :=
   ⟨r.wf, r.pg, r.aok, r.nfa, r.src, r.cur, r.ps, r.modefp, r.base0, (fun h => by rw [hf] at h; cases h),
-   (fun A hA => by cases hA), r.lastp, (fun p hp => ⟨(r.lastp_le p hp).1, (fun A hA => by cases hA)⟩)⟩
+   (fun A hA => by cases hA), r.lastp, r.lastp_le⟩
 
-theorem total_setAnchor (P o : Nat) (a : AState) (s : Sess) (r : R P a s) (hs : SafeOp s (.setAnchor o)) :
+theorem total_setAnchor (P o : Nat) (a : AState) (s : Sess) (r : R P a s) (hs : CallerOk s (.setAnchor o)) :
     TStep P a s (.setAnchor o) := by
   cases hf : s.b.hasfp with
   | false =>
@@ -183,18 +180,14 @@ theorem total_setAnchor (P o : Nat) (a : AState) (s : Sess) (r : R P a s) (hs : 
         obtain ⟨a0, _, hb⟩ := absAnchor_some (by rw [r1]; exact hA : s.b.absAnchor = some A)
         omega
       · left; rw [← r.cur]; omega
-    · have hle : o ≤ a.cur := by
-        rcases hs hf with h | h
-        · rw [← r.cur]; exact h
-        · omega
-      exact TStep.of_sim (sim_setAnchor' P o a s r hle (fun _ => by omega))
+    · exact TStep.of_sim (sim_setAnchor' P o a s r (fun _ => by omega) (fun _ => by omega))
 
 theorem setStableAnchor_outside (b : Buf) (o : Nat) (hf : b.hasfp = true) (h : o < b.base ∨ b.base + b.n < o) :
     setStableAnchor b o = (.einval, b) := by
   unfold setStableAnchor
   simp only [hf, Bool.not_true, Bool.false_eq_true, if_false, setAnchor_outside b o hf h]
 
-theorem total_setStableAnchor (P o : Nat) (a : AState) (s : Sess) (r : R P a s) (hs : SafeOp s (.setStableAnchor o)) :
+theorem total_setStableAnchor (P o : Nat) (a : AState) (s : Sess) (r : R P a s) (hs : CallerOk s (.setStableAnchor o)) :
     TStep P a s (.setStableAnchor o) := by
   cases hf : s.b.hasfp with
   | false =>
@@ -235,10 +228,6 @@ theorem total_setStableAnchor (P o : Nat) (a : AState) (s : Sess) (r : R P a s) 
         obtain ⟨a0, _, hb⟩ := absAnchor_some (by rw [r1]; exact hA : s.b.absAnchor = some A)
         omega
       · left; rw [← r.cur]; omega
-    · have hle : o ≤ a.cur := by
-        rcases hs hf with h | h
-        · rw [← r.cur]; exact h
-        · omega
-      exact TStep.of_sim (sim_setStableAnchor' P o a s r hle (fun _ => by omega))
+    · exact TStep.of_sim (sim_setStableAnchor' P o a s r (fun _ => by omega) (fun _ => by omega))
 
 end EaselModel.Buffer
